@@ -399,7 +399,7 @@ Definition tgt_of (h : Ptr) : target :=
 Definition wc_of (h : Ptr) : Z := DataSize (p_size h) / 8 + PointerCount (p_size h).
 Definition shape_ok (h : Ptr) : Prop :=
   match p_kind h with
-  | KStruct => os_wf (p_size h) /\ p_comp h = false
+  | KStruct => os_wf (p_size h) /\ p_comp h = false /\ p_len h = 0 /\ p_bit h = false
   | KList => 0 <= p_len h < 536870912 /\
              (p_comp h = false /\
               (p_bit h = true /\ p_size h = mkOS 0 0 \/
@@ -480,7 +480,7 @@ Proof.
   intros Hv (Hs & Hseg & Hin & Hoff) Htag Hnz. unfold raw_of, tgt_of, obj_reg, obj_bytes, shape_ok in *.
   destruct (p_kind h) eqn:EK.
   - (* struct *)
-    specialize (Hnz eq_refl). destruct Hs as [Hs Hcomp]. unfold obj_start in *. rewrite Hcomp in *.
+    specialize (Hnz eq_refl). destruct Hs as (Hs & Hcomp & _). unfold obj_start in *. rewrite Hcomp in *.
     destruct (fields_struct (p_size h) Hs) as (raw & E & R0 & R1 & R2 & R3 & R4 & R5).
     exists raw. rewrite E. cbn [of_opt_panic]. split; [reflexivity|].
     destruct Hs as (Hd & Hm & Hp).
@@ -598,7 +598,23 @@ Definition root_reg : region := mkReg 0 0 8.
 Definition slots (h : Ptr) : list (Z * Z) := children (tgt_of h).
 Definition in_msg (ms : segs) (r : region) : Prop := in_seg ms (r_seg r) (r_start r) (r_size r) = true.
 
+(* what a pointer slot holds: the null word, the inline empty struct (offset -1), the words the
+   placement switch stores for a table object (with pads of the pad table), or a capability
+   pointer *)
+Definition empty_struct_word : Z := 4294967292.   (* rawStructPointer (-1) (mkOS 0 0) *)
+Lemma empty_struct_word_eq : rawStructPointer (-1) (mkOS 0 0) = Some empty_struct_word.
+Proof. reflexivity. Qed.
+
 Definition slot_ok (ms : segs) (pads : list region) (objs : list Ptr) (q : Z * Z) : Prop :=
+  word_at ms (fst q) (snd q) = Some 0 \/
+  word_at ms (fst q) (snd q) = Some empty_struct_word \/
+  (exists h ps raw oldlen, In h objs /\ incl ps pads /\ raw_of h = Ok raw /\
+    (p_kind h = KStruct -> os_isZero (p_size h) = false) /\
+    placed ms (fst q) (snd q) (p_seg h) (obj_start h) raw oldlen ps) \/
+  (exists idx, 0 <= idx < 4294967296 /\ word_at ms (fst q) (snd q) = Some (rawInterfacePointer idx)).
+
+(* ... and how the strict validator resolves it *)
+Definition slot_res (ms : segs) (pads : list region) (objs : list Ptr) (q : Z * Z) : Prop :=
   exists t rs, resolve_ptr ms (fst q) (snd q) = (t, rs) /\ simple_target t /\
     (rs = [] /\ no_tag t \/ exists ps r, rs = ps ++ [r] /\ incl ps pads /\
         (r_size r = 0 /\ no_tag t \/ exists h, In h objs /\ r = obj_reg h /\ t = tgt_of h)).
@@ -655,7 +671,7 @@ Proof.
   intros Hv (Hs & Hseg & Hin & Hoff) Hq.
   destruct (p_kind h) eqn:EK.
   - unfold slots, tgt_of, obj_reg, obj_bytes, shape_ok, obj_start in *. rewrite EK in *. cbn [children] in Hq.
-    destruct Hs as ((Hd & Hm & Hp) & Hc). rewrite Hc. apply in_map_iff in Hq. destruct Hq as (a & <- & Ha).
+    destruct Hs as ((Hd & Hm & Hp) & Hc & _). rewrite Hc. apply in_map_iff in Hq. destruct Hq as (a & <- & Ha).
     unfold zseq in Ha. apply in_map_iff in Ha. destruct Ha as (k & <- & Hk). apply in_seq in Hk. cbn [fst snd r_size].
     assert (TS : totalSize (p_size h) = DataSize (p_size h) + 8 * PointerCount (p_size h)) by (unfold totalSize, pointerSize, u32; lia).
     rewrite TS. unfold padToWord, u32. lia.
@@ -717,7 +733,7 @@ Lemma slot_resolve_frame m m' (R : Z -> Z -> Prop) pads objs q :
   (forall k, snd q <= k < snd q + 8 -> ~ R (fst q) k) ->
   (forall r, In r pads -> forall k, r_start r <= k < r_start r + r_size r -> ~ R (r_seg r) k) ->
   (forall h, In h objs -> tag_free R h) ->
-  slot_ok (bm_data m) pads objs q ->
+  slot_res (bm_data m) pads objs q ->
   resolve_ptr (bm_data m') (fst q) (snd q) = resolve_ptr (bm_data m) (fst q) (snd q).
 Proof.
   intros Hin Htg K Hn Hq Hp Hf (t & rs & E & S & C). rewrite E.
@@ -747,55 +763,36 @@ Proof.
     intros k Hk. apply (Hf h Hh Ek Hc). lia.
 Qed.
 
-(* a slot whose own word, whose pads and whose target's tag word are not touched stays valid *)
+(* a slot whose own word and whose pads are not touched keeps its content *)
 Lemma slot_ok_frame m m' (R : Z -> Z -> Prop) pads objs pads' objs' q :
-  (forall r, In r pads -> in_msg (bm_data m) r) ->
-  (forall h, In h objs -> tag_ok (bm_data m) h) ->
   keeps m m' R -> nsegs m <= nsegs m' ->
   (forall k, snd q <= k < snd q + 8 -> ~ R (fst q) k) ->
   (forall r, In r pads -> forall k, r_start r <= k < r_start r + r_size r -> ~ R (r_seg r) k) ->
-  (forall h, In h objs -> tag_free R h) ->
   incl pads pads' -> incl objs objs' ->
   slot_ok (bm_data m) pads objs q -> slot_ok (bm_data m') pads' objs' q.
 Proof.
-  intros Hin Htg K Hn Hq Hp Hf Ip Io (t & rs & E & S & C).
-  exists t, rs. split; [|split; [exact S|]].
-  - apply (resolve_stable (bm_data m)); auto.
-    + eapply keeps_grows; eauto.
-    + (* the slot word *)
-      unfold resolve_ptr in E. destruct (word_at (bm_data m) (fst q) (snd q)) as [w|] eqn:EW;
-        [|bad_target E S].
-      destruct (word_at_range _ _ _ _ EW) as (G1 & G2 & G3). rewrite zlen_bm in G1. rewrite seg_len_bm in G3.
-      rewrite <- EW. apply (keeps_word m m' R); auto.
-    + intros r i b Hr Hw.
-      destruct C as [[-> _]|(ps & r0 & -> & Ips & _)]; [destruct Hr|].
-      rewrite removelast_snoc in Hr. specialize (Hin r (Ips r Hr)). unfold in_msg in Hin.
-      destruct (in_seg_elim _ _ _ _ Hin) as (G1 & G2 & G3 & G4 & _). rewrite zlen_bm in G1. rewrite seg_len_bm in G4.
-      destruct Hw as (-> & W1 & W2).
-      apply (keeps_word m m' R); auto; try lia.
-      intros k Hk. apply (Hp r (Ips r Hr)). lia.
-    + (* the tag word of a composite target *)
-      intros p Hp'.
-      assert (HT : exists h, In h objs /\ t = tgt_of h).
-      { destruct C as [[_ N]|(ps & r0 & _ & _ & [[_ N]|(h & Hh & _ & Et)])].
-        - destruct t; cbn in N, Hp'; try contradiction; discriminate.
-        - destruct t; cbn in N, Hp'; try contradiction; discriminate.
-        - exists h. auto. }
-      destruct HT as (h & Hh & ->). destruct (tag_pos_tgt _ _ Hp') as (Ek & Hc & ->). cbn [fst snd].
-      destruct (Htg h Hh Ek Hc) as (tag & _ & E2).
-      destruct (word_at_range _ _ _ _ E2) as (G1 & G2 & G3). rewrite zlen_bm in G1. rewrite seg_len_bm in G3.
-      apply (keeps_word m m' R); auto; try lia.
-      intros k Hk. apply (Hf h Hh Ek Hc). lia.
-  - destruct C as [C|(ps & r0 & -> & Ips & D)]; [left; exact C|right].
-    exists ps, r0. split; [reflexivity|]. split; [intros x Hx; apply Ip, Ips, Hx|].
-    destruct D as [D|(h & Hh & D1 & D2)]; [left; exact D|right]. exists h. split; [apply Io, Hh|auto].
+  intros K Hn Hq Hp Ip Io S.
+  assert (W : forall i b w, word_at (bm_data m) i b = Some w -> (forall k, b <= k < b + 8 -> ~ R i k) ->
+                word_at (bm_data m') i b = Some w).
+  { intros i b w E HR. destruct (word_at_range _ _ _ _ E) as (G1 & G2 & G3). rewrite zlen_bm in G1. rewrite seg_len_bm in G3.
+    rewrite <- E. apply (keeps_word m m' R); auto. }
+  destruct S as [S|[S|[(h & ps & raw & oldlen & Hh & Ips & Er & Hnz & Pl)|(idx & Hi & S)]]].
+  4:{ right. right. right. exists idx. split; [exact Hi|]. apply W; auto. }
+  - left. apply W; auto.
+  - right. left. apply W; auto.
+  - right. right. left. exists h, ps, raw, oldlen. split; [apply Io, Hh|]. split; [intros x Hx; apply Ip, Ips, Hx|].
+    split; [exact Er|]. split; [exact Hnz|].
+    destruct Pl as [E W1|padAddr Hne Epa W1 W2|psid padAddr Hne Hps Epa W1 W2 W3].
+    + apply PlNear; auto.
+    + assert (Hin : In (mkReg (p_seg h) padAddr 8) pads) by (apply Ips; left; reflexivity).
+      apply PlFar; auto. apply W; auto. intros k Hk. apply (Hp _ Hin). cbn [r_start r_size]. lia.
+    + assert (Hin : In (mkReg psid padAddr 16) pads) by (apply Ips; left; reflexivity).
+      apply PlDfar; auto; apply W; auto; intros k Hk; apply (Hp _ Hin); cbn [r_start r_size]; lia.
 Qed.
 
 (* freshly allocated words are null pointers *)
 Lemma null_slot_ok (ms : segs) pads objs q : word_at ms (fst q) (snd q) = Some 0 -> slot_ok ms pads objs q.
-Proof.
-  intros H. exists GNull, []. unfold resolve_ptr. rewrite H. cbn. split; [reflexivity|]. split; [exact I|left; split; [reflexivity|exact I]].
-Qed.
+Proof. intros H. left. exact H. Qed.
 
 (* ------------------------------------------------------------------ a constructor adds an object *)
 Lemma in_msg_mono (ms ms' : segs) r : grows ms ms' -> in_msg ms r -> in_msg ms' r.
@@ -861,7 +858,6 @@ Proof.
       - cbn in Hq. rewrite app_nil_r in Hq. right. exact Hq. }
     destruct Hq' as [Hq'|Hq'].
     + apply (slot_ok_frame m m' Rnone pads objs); auto.
-      * intros x _. apply tag_free_none.
       * apply incl_refl.
       * intros x Hx. apply in_or_app. left. exact Hx.
     + apply null_slot_ok. apply Z. exact Hq'.
@@ -883,7 +879,6 @@ Proof.
   - intros x Hx. apply (tag_ok_frame m m' R); auto.
   - intros r Hr. eapply in_msg_mono; eauto.
   - intros q Hq'. apply (slot_ok_frame m m' R pads objs); auto.
-    + intros r Hr. apply Hin. unfold all_regs. apply in_or_app. right. exact Hr.
     + apply incl_refl.
     + apply incl_refl.
 Qed.
@@ -1056,6 +1051,49 @@ Proof.
       cbv [reg_disjoint obj_reg r_seg r_start r_size] in D, S3, T2. lia.
 Qed.
 
+(* the strict validator resolves every table slot: null, the inline empty struct, or through
+   pads of the pad table to exactly one table object *)
+Lemma hinv_slot_res m objs pads q :
+  hinv m objs pads -> In q ((0, 0) :: flat_map slots objs) -> slot_res (bm_data m) pads objs q.
+Proof.
+  intros H Hq. destruct (slot_geometry _ _ _ _ H Hq) as (Q1 & Q2 & Q3 & Q4 & _).
+  pose proof (hi_small _ _ _ H (fst q)) as Hsq. unfold maxSegmentSize in Hsq.
+  destruct (hi_slots _ _ _ H q Hq) as [S|[S|[(h & ps & raw & oldlen & Hh & Ips & Er & Hnz & Pl)|(idx & Hi & S)]]].
+  4:{ exists (GCap idx), []. split; [|split; [exact I|left; split; [reflexivity|exact I]]].
+      unfold resolve_ptr. rewrite S. rewrite rawInterfacePointer_sum by assumption.
+      set (w := idx * 4294967296 + 3).
+      assert (E0 : (w =? 0) = false) by (unfold w; lia). rewrite E0.
+      assert (E3 : (f_A w =? 3) = true) by (unfold f_A, w; lia). rewrite E3.
+      assert (EZ : ((w / 4) mod two30 =? 0) = true) by (unfold two30, w; lia). rewrite EZ.
+      assert (EI : w / two32 = idx) by (unfold two32, w; lia). rewrite EI. reflexivity. }
+  - exists GNull, []. unfold resolve_ptr. rewrite S. cbn. split; [reflexivity|]. split; [exact I|left; split; [reflexivity|exact I]].
+  - exists (GStruct (fst q) (snd q) 0 0), [mkReg (fst q) (snd q) 0]. split; [|split; [exact I|]].
+    + unfold resolve_ptr. rewrite S. unfold empty_struct_word.
+      change (4294967292 =? 0) with false. change (f_A 4294967292 =? 3) with false. change (f_A 4294967292 =? 2) with false. cbv iota.
+      unfold decode_obj. cbv zeta. change (f_A 4294967292 =? 0) with true. cbv iota.
+      change (f_off 4294967292) with (-1). change (f_dw 4294967292) with 0. change (f_pc 4294967292) with 0.
+      replace (snd q + 8 + 8 * -1) with (snd q) by lia. change (8 * (0 + 0)) with 0.
+      rewrite in_seg_intro; [reflexivity| | | | |]; try lia.
+      * rewrite zlen_bm. exact Q1.
+      * rewrite seg_len_bm. lia.
+    + right. exists [], (mkReg (fst q) (snd q) 0). split; [reflexivity|]. split; [intros x []|left; split; [reflexivity|exact I]].
+  - destruct (hi_good _ _ _ H h Hh) as [V G]. pose proof (hi_tags _ _ _ H h Hh) as T.
+    destruct (obj_decode (bm_data m) h V G T Hnz) as (raw' & Er' & Rw & DE). rewrite Er in Er'. apply Ok_inj in Er'. subst raw'.
+    pose proof G as (_ & Gs & Gi & Go). destruct (in_seg_elim _ _ _ _ Gi) as (T1 & T2 & T3 & T4 & T5).
+    rewrite zlen_bm in T1. rewrite seg_len_bm in T4.
+    pose proof (hi_small _ _ _ H (p_seg h)) as Hsh. unfold maxSegmentSize in Hsh.
+    assert (PR := placed_resolve (bm_data m) (fst q) (snd q) (p_seg h) (obj_start h) raw oldlen ps Pl Rw).
+    exists (tgt_of h), (ps ++ [obj_reg h]). split; [|split].
+    + rewrite PR; try lia.
+      * rewrite DE. reflexivity.
+      * rewrite zlen_bm. pose proof (hi_nsegs _ _ _ H). lia.
+      * intros p Hp. pose proof (hi_in _ _ _ H p ltac:(unfold all_regs; apply in_or_app; right; apply Ips; exact Hp)) as Ip.
+        unfold in_msg in Ip. destruct (in_seg_elim _ _ _ _ Ip) as (Y1 & Y2 & Y3 & Y4 & Y5). rewrite seg_len_bm in Y4.
+        pose proof (hi_small _ _ _ H (r_seg p)) as Hsp. unfold maxSegmentSize in Hsp. lia.
+    + unfold tgt_of. destruct (p_kind h); try exact I. destruct (p_comp h); exact I.
+    + right. exists ps, (obj_reg h). split; [reflexivity|]. split; [exact Ips|]. right. exists h. auto.
+Qed.
+
 Lemma hinv_place_full m objs pads w q ht raw w' :
   w_dst w = m -> hinv m objs pads ->
   In q ((0, 0) :: flat_map slots objs) -> In ht objs ->
@@ -1067,7 +1105,8 @@ Lemma hinv_place_full m objs pads w q ht raw w' :
     resolve_ptr (bm_data (w_dst w')) (fst q) (snd q) = (tgt_of ht, pads' ++ [obj_reg ht]) /\
     keeps m (w_dst w') (Rword (fst q) (snd q)) /\
     (forall q', In q' ((0, 0) :: flat_map slots objs) -> ~ (fst q' = fst q /\ snd q' = snd q) ->
-       resolve_ptr (bm_data (w_dst w')) (fst q') (snd q') = resolve_ptr (bm_data m) (fst q') (snd q')).
+       resolve_ptr (bm_data (w_dst w')) (fst q') (snd q') = resolve_ptr (bm_data m) (fst q') (snd q')) /\
+    placed (bm_data (w_dst w')) (fst q) (snd q) (p_seg ht) (obj_start ht) raw (fun i => zlen (mem m i)) pads'.
 Proof.
   intros Ew H Hq Hht Hnz Hraw Hpl Hns'. subst m. set (m := w_dst w) in *.
   destruct (slot_geometry _ _ _ _ H Hq) as (Q1 & Q2 & Q3 & Q4 & (rq & Rq1 & Rq2 & Rq3 & Rq4)).
@@ -1120,11 +1159,11 @@ Proof.
     - intros p Hp. destruct (PF p Hp) as (Z1 & Z2 & Z3). unfold in_msg in Z3.
       destruct (in_seg_elim _ _ _ _ Z3) as (Y1 & Y2 & Y3 & Y4 & Y5). rewrite seg_len_bm in Y4.
       pose proof (Sm' (r_seg p)). unfold maxSegmentSize in *. lia. }
-  split; [|split; [exact RQ|split; [exact K|]]].
+  split; [|split; [exact RQ|split; [exact K|split; [|exact Hpd]]]].
   2:{ intros q' Hq' NE. apply (slot_resolve_frame m m' (Rword (fst q) (snd q)) pads objs); auto.
       - apply (hi_tags _ _ _ H).
       - intros k Hk [X1 X2]. destruct (slot_geometry _ _ _ _ H Hq') as (_ & _ & P3 & _). lia.
-      - apply (hi_slots _ _ _ H). exact Hq'. }
+      - apply hinv_slot_res; auto. }
   constructor; auto.
   - intros x Hx. destruct (hi_good _ _ _ H x Hx) as [V Gx]. split; [exact V|eapply good_mono; eauto].
   - intros x Hx. apply (tag_ok_frame m m' (Rword (fst q) (snd q))); auto. apply (hi_tags _ _ _ H); exact Hx.
@@ -1144,13 +1183,9 @@ Proof.
     destruct DEC as [[E1 E2]|NE].
     + (* the slot just written *)
       assert (Eq : q' = q) by (destruct q, q'; cbn in *; congruence). subst q'.
-      exists (tgt_of ht), (pads' ++ [obj_reg ht]). split; [|split].
-      * exact RQ.
-      * unfold tgt_of. destruct (p_kind ht); try exact I. destruct (p_comp ht); exact I.
-      * right. exists pads', (obj_reg ht). split; [reflexivity|]. split; [intros x Hx; apply in_or_app; right; exact Hx|].
-        right. exists ht. auto.
+      right. right. left. exists ht, pads', raw, (fun i => zlen (mem m i)). split; [exact Hht|].
+      split; [intros x Hx; apply in_or_app; right; exact Hx|]. split; [exact Hraw|]. split; [exact Hnz|exact Hpd].
     + apply (slot_ok_frame m m' (Rword (fst q) (snd q)) pads objs); auto.
-      * apply (hi_tags _ _ _ H).
       * intros k Hk [X1 X2]. lia.
       * intros x Hx. apply in_or_app. left. exact Hx.
       * apply incl_refl.
@@ -1183,7 +1218,7 @@ Theorem hinv_pointers_valid m objs pads q :
     (rs = [] /\ no_tag t \/ exists ps r, rs = ps ++ [r] /\ incl ps pads /\
         (r_size r = 0 /\ no_tag t \/ exists h, In h objs /\ r = obj_reg h /\ t = tgt_of h)).
 Proof.
-  intros H Hq. destruct (hi_slots _ _ _ H q Hq) as (t & rs & E & S & C).
+  intros H Hq. destruct (hinv_slot_res _ _ _ _ H Hq) as (t & rs & E & S & C).
   exists t, rs. split; [exact E|]. split; [destruct t; cbn in *; auto; contradiction|]. split; [|exact C].
   intros r Hr. destruct C as [[-> _]|(ps & r0 & -> & Ips & D)]; [destruct Hr|].
   apply in_app_or in Hr. destruct Hr as [Hr|[<-|[]]].
@@ -1258,5 +1293,5 @@ Proof.
   - intros q Hq. apply (slot_resolve_frame m m' (fun i k => i = p_seg h /\ addr <= k < addr + zlen bs) pads objs); auto; try lia.
     + intros r Hr. apply (hi_in _ _ _ H). unfold all_regs. apply in_or_app. right. exact Hr.
     + apply (hi_tags _ _ _ H).
-    + apply (hi_slots _ _ _ H). exact Hq.
+    + apply hinv_slot_res; auto.
 Qed.
